@@ -156,6 +156,147 @@ def merge_contributions(ctx, facts, mb, vecp, cfg):
                   sample={"kind": v, "contributes": shown})
 
 
+def in_expected(hv, nv):
+    if hv == "Null":
+        want = "CONST:false"
+    elif hv == "Array":
+        want = "MEMBERSHIP"
+    elif hv == "String":
+        want = "SUBSTRING" if nv == "String" else ("ERR" if nv is not None else "ERR|SUBSTRING")
+    else:
+        want = "ERR"
+    return want, hv + ("×needle %s" % nv if nv else "")
+
+
+def in_outcomes(facts, ib, operand, hv, nv):
+    """K2 on path summaries read context-sensitively through private helpers (rules/x_streams.Reader): every way `in`
+    produces its result when the haystack (operand 1) has kind hv and the needle (operand 0) kind nv (None = any).
+    → (sorted outcome names, membership function key | None), or None when the code has loops (the loop reader decides).
+    Outcomes: ERR, CONST:true/false, SUBSTRING, MEMBERSHIP, SPELLING-MEMBERSHIP, and ?(…) for a value that is not read."""
+    from . import x_streams as XS
+
+    class R_(XS.Reader):
+        def known(self, pe, adt):
+            if adt == VALUE:
+                i = operand(pe)
+                if i == 1:
+                    return hv
+                if i == 0 and nv is not None:
+                    return nv
+            return XS.Reader.known(self, pe, adt)
+    R = R_(facts, ib, None)
+    mem = []
+    looped = []
+
+    def payload_of(e, variant):
+        """`(X as Ok).0` / `(branch(X) as Continue).0` where X is a private helper's answer: the helper's Ok payloads."""
+        x = strip_refs(e)
+        if not (x[0] == "field" and x[2] == 0 and x[1][0] == "downcast" and x[1][2] in ("Ok", "Continue", "Some")):
+            return None
+        src = strip_refs(x[1][1])
+        if src[0] == "call" and src[1] and src[1]["path"].endswith("as std::ops::Try>::branch") and src[2]:
+            src = strip_refs(src[2][0])
+        if src[0] == "call" and src[1] and src[1].get("local"):
+            res = R.call_results(src, src[2])
+            if res is None:
+                return None
+            outs = []
+            for r in res:
+                r = strip_refs(r)
+                if r[0] == "agg" and r[1].get("variant") in ("Ok", "Some") and len(r[2]) == 1:
+                    outs.append(r[2][0])
+                elif r[0] == "agg" and r[1].get("variant") in ("Err", "None"):
+                    continue
+                else:
+                    return None
+            return outs
+        return None
+
+    def boolean(e, depth=0):
+        x = strip_refs(e)
+        if depth > 6:
+            return ["?(deep)"]
+        if x[0] == "phi":
+            return [o for a in x[2] for o in boolean(a, depth + 1)]
+        if x[0] == "const":
+            return ["CONST:%s" % str(const_value(x[1])).lower()]
+        pl = payload_of(x, "Ok")
+        if pl is not None:
+            return [o for a in pl for o in boolean(a, depth + 1)]
+        if x[0] == "call" and x[1]:
+            path = x[1]["path"]
+            if x[1].get("local"):
+                res = R.call_results(x, x[2])
+                if res is None:
+                    looped.append(x[1].get("key"))
+                    return ["?(helper %s)" % x[1].get("key")]
+                return [o for a in res for o in boolean(a, depth + 1)]
+            if path == "core::str::<impl str>::contains" and len(x[2]) == 2:
+                hs = expr_mentions(x[2][0], lambda y: y[0] == "downcast" and y[2] == "String" and operand(y[1]) == 1)
+                ns = expr_mentions(x[2][1], lambda y: y[0] == "downcast" and y[2] == "String" and operand(y[1]) == 0)
+                return ["SUBSTRING" if hs and ns else "SUBSTRING(wrong operands)"]
+            if path == "core::slice::<impl [T]>::contains":
+                return ["SPELLING-MEMBERSHIP"]
+            if re.search(r"(Iterator::|Iterator>::)any$", path) and len(x[2]) == 2:
+                S = R.norm(R.stream(x[2][0]))
+                over = S[0] == "members" and operand(S[1]) == 1
+                var = R.fresh("candidate")
+                res = R.apply(x[2][1], [var])
+                if S[0] == "adapted" and S[2][0] == "members" and operand(S[2][1]) == 1:
+                    return ["MEMBERSHIP-AMONG-%s(elements)" % S[1]]
+                if res is None or not over:
+                    return ["ANY(%s)" % R.show(S)[:40]]
+                outs = []
+                for r in res:
+                    r = strip_refs(r)
+                    if r[0] == "call" and r[1] and (SPELLING_EQ.search(r[1]["path"]) or any(SPELLING_EQ.search(fw.get("path", "")) for fw in (r[1].get("fwd") or []))):
+                        outs.append("SPELLING-MEMBERSHIP")
+                    elif r[0] == "call" and r[1] and r[1].get("local") and len(r[2]) == 2:
+                        a_ = [R.ident(a) for a in r[2]]
+                        if any(a == var for a in a_) and any(operand(a) == 0 for a in a_):
+                            mem.append(r[1]["key"])
+                            outs.append("MEMBERSHIP")
+                        else:
+                            outs.append("ANY(wrong operands)")
+                    else:
+                        outs.append("?(%s)" % show_expr(r)[:40])
+                return outs
+        return ["?(%s)" % show_expr(x)[:40]]
+
+    def value(e, depth=0):
+        x = strip_refs(e)
+        if depth > 6:
+            return ["?(deep)"]
+        if x[0] == "phi":
+            return [o for a in x[2] for o in value(a, depth + 1)]
+        if x[0] == "agg" and x[1].get("variant") == "Err":
+            return ["ERR"]
+        if x[0] == "call" and x[1] and "from_residual" in x[1].get("path", ""):
+            return ["ERR"]
+        if x[0] == "agg" and x[1].get("variant") == "Ok" and len(x[2]) == 1:
+            v_ = strip_refs(x[2][0])
+            if v_[0] == "agg" and v_[1].get("variant") == "Bool" and len(v_[2]) == 1:
+                return boolean(v_[2][0], depth + 1)
+            return ["OK(%s)" % show_expr(v_)[:40]]
+        if x[0] == "call" and x[1] and x[1].get("local"):
+            res = R.call_results(x, x[2])
+            if res is None:
+                looped.append(x[1].get("key"))
+                return ["?(helper %s)" % x[1].get("key")]
+            return [o for a in res for o in value(a, depth + 1)]
+        return ["?(%s)" % show_expr(x)[:40]]
+    w = R.paths_of(ib, {})
+    if w is None or any(p.truncated for p in w.paths):
+        return None
+    outs = []
+    for p in w.paths:
+        outs.extend(value(p.result))
+    if looped:
+        return None
+    ms = sorted(set(mem))
+    return sorted(set(outs)), (ms[0] if len(ms) == 1 else None)
+
+
 def missing_key(ctx, facts, unit, mf, cfg):
     """K3.missing-key on path summaries + case normal form: in every body of the membership equality that looks a key
     up in the other object (`Map::get`), every way the code can go on when the lookup answers None — an `unwrap_or` /
@@ -274,9 +415,10 @@ def run(ctx):
                     sw[operand(e[1])] = strip_refs(e[1])
         ctx.check(1 in sw, "K2.haystack", "in switches on the kind of operand 1, the haystack (%s)" % cfg, "in switches on operands %s" % sorted(sw), where=ib.where(), fn=ib.key, nontrivial=True)
         membership = None
+        array_unread = False
         if 1 in sw:
             for hv in facts.variants(VALUE):
-                needle_kinds = facts.variants(VALUE) if (hv == "String" and 0 in sw) else [None]
+                needle_kinds = facts.variants(VALUE) if hv == "String" else [None]
                 for nv in needle_kinds:
                     def assume(e, a, _hv=hv, _nv=nv):
                         if a != VALUE:
@@ -286,6 +428,19 @@ def run(ctx):
                         if operand(e) == 0 and _nv is not None:
                             return _nv
                         return None
+                    read = in_outcomes(facts, ib, operand, hv, nv)
+                    if read is not None:
+                        got = "|".join(read[0])
+                        membership = read[1] or membership
+                        want, label = in_expected(hv, nv)
+                        if "?" in got or "ANY(" in got or "OK(" in got:
+                            array_unread = array_unread or hv == "Array"
+                            ctx.unread("K2.case", "in: haystack %s ⇒ %s (%s)" % (label, want, cfg), "with a %s haystack `in` yields %s (not read); expected %s" % (label, got, want), where=ib.where(), fn=ib.key)
+                        else:
+                            ctx.check(got == want, "K2.case", "in: haystack %s ⇒ %s (%s)" % (label, want, cfg), "with a %s haystack `in` yields %s; expected %s" % (label, got, want), where=ib.where(), fn=ib.key, nontrivial=True,
+                                      sample={"haystack": label, "outcome": got})
+                        continue
+                    # code with loops: kind specialisation + the loop reader
                     restrict = P.specialise_unit(roles, ib.key, assume)
                     blocks = restrict[ib.key]
                     with ib.restricted(blocks):
@@ -337,15 +492,7 @@ def run(ctx):
                             membership = mem
                             kinds = ["MEMBERSHIP"]
                     got = "|".join(sorted(set(kinds)))
-                    if hv == "Null":
-                        want = "CONST:false"
-                    elif hv == "Array":
-                        want = "MEMBERSHIP"
-                    elif hv == "String":
-                        want = "SUBSTRING" if nv in (None, "String") and nv == "String" else ("ERR" if nv is not None else "ERR|SUBSTRING")
-                    else:
-                        want = "ERR"
-                    label = hv + ("×needle %s" % nv if nv else "")
+                    want, label = in_expected(hv, nv)
                     ctx.check(got == want, "K2.case", "in: haystack %s ⇒ %s (%s)" % (label, want, cfg), "with a %s haystack `in` yields %s; expected %s" % (label, got, want), where=ib.where(), fn=ib.key, nontrivial=True,
                               sample={"haystack": label, "outcome": got})
         ures = U.analyse(facts, Unit(roles, ib.key, extended=True).bodies)
@@ -356,7 +503,10 @@ def run(ctx):
         # ================= membership equality
         for s in iu.calls(lambda c: SPELLING_EQ.search(c["path"]) is not None):
             ctx.fail("K3.spelling-sensitive", "in|%s" % callee_path(s.term).split(" as ")[0].strip("<")[:40], "`in` compares values with %s, which distinguishes 2 from 2.0" % callee_path(s.term), where=s.where(), fn=s.body.key)
-        ctx.check(membership is not None, "K3.membership-fn", "array membership uses a dedicated equality of the crate (%s)" % cfg, "no membership equality function identified", where=ib.where(), fn=ib.key, nontrivial=True)
+        if membership is None and array_unread:
+            ctx.unread("K3.membership-fn", "array membership uses a dedicated equality of the crate (%s)" % cfg, "the Array case of `in` is not read", where=ib.where(), fn=ib.key)
+        else:
+            ctx.check(membership is not None, "K3.membership-fn", "array membership uses a dedicated equality of the crate (%s)" % cfg, "no membership equality function identified", where=ib.where(), fn=ib.key, nontrivial=True)
         if membership is not None:
             mf = facts.body(membership)
             s2n = strnum.find_str_to_number(facts)
